@@ -140,9 +140,11 @@ def run_radar(bindir, script, sent, tag, mode, extra_args=()):
         out = bytes(rd.out)
         panic = 1 if b"panicked" in out else 0
         status = rd.poll()
+        life = ([{"ev": "session_start", "tag": f"feed-{mode}-{tag}", "retry": 1 if "--retry-tcp" in extra_args else 0, "quit_sent": 0, "filter_time": 120}]
+                + [e for e in ev if e.get("ev") != "unparsable"] + [apps.session_end_event(rd, tag, 0, status, alive)])
         return {"ev": "feed", "client": "radar", "tag": tag, "mode": mode, "sent": sent, "printed": printed, "alive": alive,
                 "exit": status if status is not None else -1, "panic": panic, "keys_before": keys_before, "keys_after": keys_after,
-                "reconnected": reconnected}
+                "reconnected": reconnected, "_life": life}
     finally:
         srv.stop()
         rd.cleanup()
@@ -233,6 +235,13 @@ def run(prop, tier, seed, rep):
                          job[2], job[3], "retry", extra_args=["--retry-tcp"])
     with cf.ThreadPoolExecutor(max_workers=12) as ex:
         events = list(ex.map(do, jobs))
+    # the radar runs once more, event by event: each run's hook trace must be a behaviour of RadarSession (Trace_Session):
+    # connected before any line, a disconnect followed by exit (or by a reconnect that keeps the aircraft with --retry-tcp)
+    import ui_checks
+    ui_checks.lifecycle_model(prop, tier, rep)
+    life = [x for e in events for x in e.pop("_life", [])]
+    if life:
+        ui_checks.judge_sessions(prop, rep, life, prop + "-session")
     # composition (beyond the listed properties): what 1090 prints after a line is the library's rendering of that frame.
     # The recorder renders the same bytes; TLC compares (drift only).
     hx = core.build_hx("std")
